@@ -356,7 +356,9 @@ class TomogramSimulator:
             coords = np.stack((ycoords, xcoords), axis=1)
             glob_rotator = axes_to_rotator(cross(ex, ey), ey)
             for i, yx in enumerate(coords):
-                pool.add_task(yx, shape, img, mol.rotator[i], glob_rotator)
+                pool.add_task(
+                    yx, shape, img, mol.rotator[i], glob_rotator, order=self.order
+                )
 
         results = pool.compute()
         for sl, img_fragment in results:
@@ -405,7 +407,15 @@ class TomogramSimulator:
                 coords = np.stack((ycoords, xcoords), axis=1)
                 glob_rotator = axes_to_rotator(cross(ex, ey), ey)
                 for ci, yx in enumerate(coords):
-                    pool.add_task(yx, shape[1:], img, mol.rotator[ci], glob_rotator, i)
+                    pool.add_task(
+                        yx,
+                        shape[1:],
+                        img,
+                        mol.rotator[ci],
+                        glob_rotator,
+                        i,
+                        order=self.order,
+                    )
 
         results = pool.compute()
         for sl, img_fragment in results:
@@ -597,6 +607,7 @@ def _simulate_projection_one(
     image: NDArray[np.float32],
     rotator: Rotation,
     glob_rotator: Rotation,
+    order: int = 3,
 ) -> tuple[tuple[slice, slice], NDArray[np.float32] | None]:
     proj_shape = np.array(image.shape[1:], dtype=np.int32)
     min_ = yx - proj_shape.astype(np.float32) / 2 + 0.5
@@ -614,8 +625,9 @@ def _simulate_projection_one(
         center, rotator.inv() * glob_rotator, center + residue
     )[0]
 
+    # NOTE: image is spline-filtered only if order > 1 (see _get_image)
     transformed = affine_transform(
-        image, mtx, mode="constant", cval=0.0, order=3, prefilter=False
+        image, mtx, mode="constant", cval=0.0, order=order, prefilter=False
     )
     projection: NDArray[np.float32] = np.sum(transformed, axis=0)
     return sl_dst, projection[sl_src]
@@ -628,8 +640,11 @@ def _simulate_projection_one_labeled(
     rotator: Rotation,
     glob_rotator: Rotation,
     idx: int,
+    order: int = 3,
 ) -> tuple[tuple[int, slice, slice], NDArray[np.float32] | None]:
-    sl, img = _simulate_projection_one(yx, shape, image, rotator, glob_rotator)
+    sl, img = _simulate_projection_one(
+        yx, shape, image, rotator, glob_rotator, order=order
+    )
     return (idx,) + sl, img
 
 
